@@ -284,10 +284,79 @@ func ruleBTReg(c *Ctx) {
 			}
 		}
 	}
-	if !c.Anchor(lk != nil && lk.Index == ssa.Value(root.TypParam), "registry[typ] lookup in the dispatcher") {
+	isRegistryLookup := func(in ssa.Instruction) *ssa.Lookup {
+		if l, ok := in.(*ssa.Lookup); ok && l.CommaOk {
+			if r, _ := rootOfAddr(l.X); r != nil {
+				if g, ok := r.(*ssa.Global); ok && globalKey(g) == "avro.registry" {
+					return l
+				}
+			}
+		}
+		return nil
+	}
+	var okv, cfv ssa.Value
+	if lk != nil && lk.Index == ssa.Value(root.TypParam) {
+		if e1 := extractOf(lk, 1); e1 != nil {
+			okv = e1
+		}
+		if e0 := extractOf(lk, 0); e0 != nil {
+			cfv = e0
+		}
+	} else {
+		// the lookup may live in a helper that returns (builder, found) for the type it is given
+		for _, cs := range callsIn(root.Fn) {
+			h := cs.Static
+			if h == nil || cs.Value() == nil || h.Signature.Results().Len() != 2 {
+				continue
+			}
+			var hl *ssa.Lookup
+			for _, b := range h.Blocks {
+				for _, in := range b.Instrs {
+					if l := isRegistryLookup(in); l != nil {
+						hl = l
+					}
+				}
+			}
+			if hl == nil {
+				continue
+			}
+			idx := -1
+			for i, prm := range h.Params {
+				if hl.Index == ssa.Value(prm) {
+					idx = i
+				}
+			}
+			if idx < 0 || cs.Common.Args[idx] != ssa.Value(root.TypParam) {
+				continue
+			}
+			okRet := true
+			for _, b := range h.Blocks {
+				if b == h.Recover {
+					continue // reached only when the lookup panicked
+				}
+				if ret, ok := b.Instrs[len(b.Instrs)-1].(*ssa.Return); ok {
+					rs := resolvedResults(ret)
+					e0, ok0 := rs[0].(*ssa.Extract)
+					e1, ok1 := rs[1].(*ssa.Extract)
+					if !ok0 || !ok1 || e0.Tuple != ssa.Value(hl) || e1.Tuple != ssa.Value(hl) || e0.Index != 0 || e1.Index != 1 {
+						okRet = false
+					}
+				}
+			}
+			if !okRet {
+				continue
+			}
+			if e1 := extractOf(cs.Value(), 1); e1 != nil {
+				okv = e1
+			}
+			if e0 := extractOf(cs.Value(), 0); e0 != nil {
+				cfv = e0
+			}
+		}
+	}
+	if !c.Anchor(okv != nil && cfv != nil, "registry[typ] lookup in the dispatcher") {
 		return
 	}
-	okv := extractOf(lk, 1)
 	tp := root.TypParam.Name()
 	sp := "*(&" + root.Schema.Name() + "->Type)"
 	for _, p := range root.Paths {
@@ -309,7 +378,7 @@ func ruleBTReg(c *Ctx) {
 			// cf(schema, typ, omit): same arguments, found edge
 			a := r.Delegate.Call.Args
 			same := len(a) == 3 && stripLoadOfParam(a[0]) == ssa.Value(root.Schema) && a[1] == ssa.Value(root.TypParam) && a[2] == ssa.Value(root.Omit)
-			c.Check(consulted && truth && same && r.Delegate.Call.Value == ssa.Value(extractOf(lk, 0)), key, pos, "on the found edge the registered builder is called with the dispatcher's own (schema, typ, omit)", "the registered builder is not called with the dispatcher's own arguments on the found edge of the lookup")
+			c.Check(consulted && truth && same && r.Delegate.Call.Value == cfv, key, pos, "on the found edge the registered builder is called with the dispatcher's own (schema, typ, omit)", "the registered builder is not called with the dispatcher's own arguments on the found edge of the lookup")
 		case k == 1<<nilKind:
 			c.OKTrivial(key+"/nil-type", pos, "no Go type: skip-only codec, registry not applicable")
 		case exact && (st == "union" || st == "null"):
